@@ -282,6 +282,17 @@ def plain_other(w: World, name, cur, base, wrong=False, same_class=False):
         elems = [element(w, name, cur, wrong=True)]
     if rng.random() < 0.5 and len(cur):
         elems.append(element(w, name, cur, present=True))
+    if base == "list" and wrong and hasattr(cur, "ballot_validation") and rng.random() < 0.45:
+        # the wrong-typed ballot arrives inside a DONOR PROFILE of the same class whose own validation is off
+        # (or was switched off while it was filled and back on afterwards)
+        try:
+            donor = type(cur)([], instance=getattr(cur, "instance", None), ballot_validation=False)
+            donor.extend(elems)
+            if rng.random() < 0.5:
+                donor.ballot_validation = True
+            return donor
+        except Exception:  # noqa: BLE001 - fall back to a plain list
+            pass
     if base == "set":
         return set(elems)
     if base == "list":
@@ -356,7 +367,9 @@ def gen_op(w: World, name, base, table, cur, validated):
             return op, cat, "slice", lambda: m(slice(a, b, c))
         if op in ("__add__", "__iadd__", "extend"):
             o = other()
-            if base == "tuple":
+            if hasattr(o, "ballot_validation") and wrong:
+                pass  # a donor profile carrying the wrong-typed ballot is handed over as it is
+            elif base == "tuple":
                 o = tuple(o)
             elif op != "__add__" and rng.random() < 0.3:
                 o = tuple(o)  # any iterable
@@ -562,7 +575,7 @@ def impl_answer(steps, viol):
 
 def run(ctx):
     ctx.rule = RULE
-    n = ctx.scale(1500, 20000)
+    n = ctx.scale(4000, 30000)
     unclassified = {}
     for name in CLASS_NAMES:
         base, table, unknown, missing = discover(name)
